@@ -96,7 +96,8 @@ func genOffline(r *rng, index int) *Spec {
 		// the master turns read-only at the very moment a replica's lag crosses the enable threshold
 		at := 9000 + int64(r.intn(15000))
 		h := sp.Hosts[1+r.intn(nRepl)].Name
-		sp.Timeline = append(sp.Timeline, TLEvent{AtMs: at, Kind: "sql", Host: master, Arg: "SET GLOBAL super_read_only = 1"})
+		// both flavours of a read-only master
+		sp.Timeline = append(sp.Timeline, TLEvent{AtMs: at, Kind: "sql", Host: master, Arg: []string{"SET GLOBAL super_read_only = 1", "SET GLOBAL read_only = 1, super_read_only = 0"}[r.intn(2)]})
 		sp.Timeline = append(sp.Timeline, TLEvent{AtMs: at, Kind: "lag", Host: h, N: 7000})
 		sp.Timeline = append(sp.Timeline, TLEvent{AtMs: at + int64(r.pickInt(500, 1500, 2500)), Kind: "lag", Host: h, N: int64(r.pickInt(100, 500))})
 	}
